@@ -28,6 +28,7 @@ func runC04(c *Ctx) {
 	c.Rule("C04.O6", "E4,E1", "ResetPollerEvent re-arms read+write exactly on the queue-non-empty edge and reads closed/writeList under Conn.mux", 1)
 	c.Rule("C04.O7", "E4", "after EPOLL_CTL_ADD that follows a user callback, the success path arms write interest under the mutex on the queue-non-empty edge", 1)
 
+	c.Rule("C04.O9", "E4", "flush gives up with a non-empty queue only when the kernel refused bytes: every success return is on the queue-empty edge or on the EAGAIN edge (edge-triggered mode delivers no further event otherwise)", 1)
 	c.Rule("C04.O8", "E4", "one-shot mode: every dispatch of an event for a live connection re-registers the descriptor (ResetPollerEvent, the async read job, a custom OnRead, or close) before the next event is awaited", 1)
 
 	core := c.Core()
@@ -208,6 +209,33 @@ func runC04(c *Ctx) {
 			bad = fmt.Sprintf("expected exactly one call of flush, found %d", n)
 		}
 		c.Cond(bad == "", "C04.O5", "callers of flush", "", "readWriteLoop on the write-event edge", bad)
+	}
+
+	// ------------------------------------------------------------------ O9
+	if fn := c.Fn("C04.O9", "(*nbio.Conn).flush"); fn != nil {
+		fi := c.P.Info(fn)
+		bad := ""
+		n := 0
+		for _, r := range fi.Returns() {
+			if !ir.IsNilConst(ir.RetVals(r)[0]) {
+				continue
+			}
+			n++
+			ok := fi.HasFact(r, func(ft ir.Fact) bool {
+				if e, isQ := c.queueTest(ft); isQ && e {
+					return true
+				}
+				_, target, is, isE := c.P.ErrorsIsTest(ft.Cond, ft.Truth)
+				return isE && is && target == "EAGAIN"
+			})
+			if !ok {
+				bad = "flush returns at " + c.Pos(r) + " with bytes possibly still queued although the kernel did not refuse any: in edge-triggered mode no further writable event arrives and the backlog is never sent"
+			}
+		}
+		if n < 2 && bad == "" {
+			bad = fmt.Sprintf("expected the queue-empty and the EAGAIN return, found %d success return(s)", n)
+		}
+		c.Cond(bad == "", "C04.O9", fnKey(c.P, fn, "gives up only on EAGAIN"), c.FnPos(fn), fmt.Sprintf("%d success return(s): queue empty or EAGAIN", n), bad)
 	}
 
 	// ------------------------------------------------------------------ O8
